@@ -933,12 +933,13 @@ def answerOf (r : Resp) : Spec.Answer :=
 def obsOf (r : Resp) : Spec.Observation := ⟨r.invokedWith.isSome, answerOf r, r.err.map (·.cls)⟩
 
 /-- the bodies of `_validate_params`, `_deserialize_params`, `_deserialize_value`, the guard / schema recording of
-`_read_request` and the exemption set of `_validate_call_signature` are the ones the model transliterates -/
+`_read_request` and the exemption set of `_validate_call_signature` are the ones the model transliterates, and the
+validation functions keep no module-level / cross-call state (the model is a function of declaration and request only) -/
 theorem shapes_recognised :
     validateParamsRecognised = true ∧ deserializeParamsRecognised = true ∧ deserializeValueRecognised = true ∧
-    readRowGuard = true ∧ readRecordsSchema = true ∧ unexpectedExempt = ["ctx"] ∧
+    readRowGuard = true ∧ readRecordsSchema = true ∧ unexpectedExempt = ["ctx"] ∧ validationState = [] ∧
     (∀ site ∈ sites, (site.http = false ∧ site.phases = pipeForm) ∨ (site.http = true ∧ site.phases = httpForm)) := by
-  refine ⟨by decide, by decide, by decide, by decide, by decide, by decide, site_forms⟩
+  refine ⟨by decide, by decide, by decide, by decide, by decide, by decide, by decide, site_forms⟩
 
 theorem conforms_fields (d : Decl) (cols : List Col) (h : Spec.Conforms (declP d) (colP cols)) : FieldsAgree cols d := by
   obtain ⟨h1, h2, h3, _⟩ := h
